@@ -20,7 +20,7 @@ def default_hints(keys):
 def corpus(ctx, max_exh=3, n_random=300, max_leaves=12):
     """[(tree, rc assignment)] : exhaustive small scope first, then random in-domain trees"""
     keys = RC + HINTS + FCS
-    out = []
+    out = regression_cases()
     for n in range(1, max_exh + 1):
         for t in exprs.trees(n, keys):
             rk = sorted({k for k in exprs.leaves(t) if exprs.kind(k) == "rc"})
@@ -38,6 +38,32 @@ def corpus(ctx, max_exh=3, n_random=300, max_leaves=12):
         rk = sorted({k for k in exprs.leaves(t) if exprs.kind(k) == "rc"})
         for _ in range(3):
             out.append((t, {k: ctx.rng.choice(STATES) for k in rk}))
+    return out
+
+
+def regression_cases():
+    """corpus/eval.json: failing inputs of past (seeded) defects, as (tree, rc assignment); they run first"""
+    import json
+    import os
+
+    from vlib import impl  # noqa: F401
+    from ahbicht.expressions.condition_expression_parser import parse_condition_expression_to_tree
+
+    path = os.path.join(os.path.dirname(os.path.dirname(os.path.abspath(__file__))), "corpus", "eval.json")
+    if not os.path.exists(path):
+        return []
+    out = []
+    for e in json.load(open(path, encoding="utf-8")):
+        try:
+            t = exprs.from_lark(parse_condition_expression_to_tree(e["expression"]))
+        except BaseException:  # pylint: disable=broad-except
+            continue   # a corpus entry the current parser rejects is not an evaluation case
+        if t is None or any(exprs.kind(k) == "bad" for k in exprs.leaves(t)):
+            continue
+        rk = {k for k in exprs.leaves(t) if exprs.kind(k) == "rc"}
+        rho = {k: v for k, v in e.get("rc", {}).items() if k in rk and v in STATES}
+        if set(rho) == rk:
+            out.append((t, rho))
     return out
 
 
